@@ -70,8 +70,8 @@ class C04(Prop):
     THEOREMS = ["AwProofs.C04.foreign_id_noop_memory", "AwProofs.C04.foreign_id_noop_peewee", "AwProofs.C04.foreign_id_noop_sqlite", "AwProofs.C04.frame_memory", "AwProofs.C04.frame_peewee", "AwProofs.C04.frame_run_memory", "AwProofs.C04.frame_run_peewee", "AwProofs.C04.frame_run_sqlite", "AwProofs.C04.frame_spec", "AwProofs.C04.frame_sqlite", "AwProofs.C04.inv_step_memory", "AwProofs.C04.inv_step_peewee", "AwProofs.C04.inv_step_sqlite", "AwProofs.C04.reachable_inv_memory", "AwProofs.C04.reachable_inv_peewee", "AwProofs.C04.reachable_inv_sqlite", "AwProofs.C04.rejected_unchanged_memory", "AwProofs.C04.rejected_unchanged_peewee", "AwProofs.C04.rejected_unchanged_sqlite"]
     MODEL_NEEDS_IMPL = True
     WORKERS = 10
-    LEVEL_TEXT = "Lean 4 frame theorems: for every operation and every argument, the view of every other bucket is unchanged"
-    LEVEL_NOTE = "trusts: Lean kernel; SQL statement semantics as modelled; differential tie on malformed histories"
+    LEVEL_TEXT = "Lean 4 frame theorems for each backend model: frame_B / frame_run_B (for every operation with every argument - foreign ids, never-existing ids, missing buckets - the view of every other bucket is unchanged), inv_step_B, reachable_inv_B, rejected_unchanged_B, foreign_id_noop_B; models compared with the real backends on histories that break C02's precondition on purpose, incl. a stream observed without committing"
+    LEVEL_NOTE = 'trusts: Lean kernel + 3 standard axioms; SQL statement semantics as modelled; no hypothesis beyond the backend invariant (proved for all reachable states)'
     TECHNIQUE = "Lean 4 frame/invariant proof over table models + differential correspondence on malformed histories"
     RULE = (
         "seeded random multi-bucket histories that break C02's precondition on purpose (ids of other buckets, never-existing "
